@@ -133,7 +133,7 @@ pub fn run(ctx: &Ctx) -> i32 {
     let _ = super::variant::measured();
     let progs = programs11();
     let alphabets: Vec<Vec<Action>> = progs.iter().map(alphabet).collect();
-    let depth = ctx.tier.pick(7, 9);
+    let depth = ctx.tier.pick(7, 11);
     let roots: Vec<St> = (0..progs.len()).map(|i| St { tag: i as u32, hist: vec![], digest: i as u64 }).collect();
     let step = |acc: &mut Acc, s: &St| -> Vec<St> {
         let i = s.tag as usize;
